@@ -35,15 +35,76 @@ import (
 )
 
 type inlineCandidate struct {
-	fd   *ast.FuncDecl
-	obj  *types.Func
+	fd   *ast.FuncDecl // for a local closure: a declaration made up of the literal's type and body
+	obj  types.Object  // *types.Func, or the *types.Var a local closure is bound to
+	sig  *types.Signature
 	file *ast.File
 	body string // printed body, re-parsed for every call site
+	// a local closure `name := func(...) {...}`: the statement that defines it, the function it is local to, and the
+	// literal (for the test that the names it captures mean the same at the call site)
+	def   *ast.AssignStmt
+	owner *ast.FuncDecl
+	lit   *ast.FuncLit
+}
+
+// closureDef: `name := func(...) ... {...}` directly in the statements of a declared function (not inside another
+// literal), where name is afterwards only ever called.
+type closureDef struct {
+	name string
+	obj  *types.Var
+	def  *ast.AssignStmt
+	lit  *ast.FuncLit
+}
+
+func localClosures(c *Ctx, fd *ast.FuncDecl) []closureDef {
+	var out []closureDef
+	if fd.Body == nil {
+		return nil
+	}
+	ast.Inspect(fd.Body, func(n ast.Node) bool {
+		switch t := n.(type) {
+		case *ast.FuncLit:
+			return false
+		case *ast.AssignStmt:
+			if t.Tok == token.DEFINE && len(t.Lhs) == 1 && len(t.Rhs) == 1 {
+				id, isId := t.Lhs[0].(*ast.Ident)
+				lit, isLit := t.Rhs[0].(*ast.FuncLit)
+				if isId && isLit && id.Name != "_" {
+					if v, ok := c.Info.Defs[id].(*types.Var); ok {
+						out = append(out, closureDef{id.Name, v, t, lit})
+					}
+				}
+			}
+		}
+		return true
+	})
+	return out
+}
+
+// onlyCalled: every use of the variable is the function of a call expression.
+func onlyCalled(c *Ctx, fd *ast.FuncDecl, v *types.Var) bool {
+	called := map[*ast.Ident]bool{}
+	ok := true
+	ast.Inspect(fd.Body, func(n ast.Node) bool {
+		if call, isCall := n.(*ast.CallExpr); isCall {
+			if id, isId := ast.Unparen(call.Fun).(*ast.Ident); isId && c.Info.Uses[id] == types.Object(v) {
+				called[id] = true
+			}
+		}
+		return true
+	})
+	ast.Inspect(fd.Body, func(n ast.Node) bool {
+		if id, isId := n.(*ast.Ident); isId && c.Info.Uses[id] == types.Object(v) && !called[id] {
+			ok = false
+		}
+		return true
+	})
+	return ok
 }
 
 // inlineNewHelpers returns the overlay (file name -> new source) and the names of the helpers written back, or nil.
 func inlineNewHelpers(c *Ctx) (map[string][]byte, []string) {
-	cands := map[*types.Func]*inlineCandidate{}
+	cands := map[types.Object]*inlineCandidate{}
 	for key, fd := range c.decls {
 		if baselineFuncs[key] || fd.Body == nil || fd.Name.IsExported() || strings.HasPrefix(fd.Name.Name, "_") {
 			continue
@@ -52,11 +113,35 @@ func inlineNewHelpers(c *Ctx) (map[string][]byte, []string) {
 		if obj == nil || !inlinable(c, fd, obj) {
 			continue
 		}
+		if _, conv := funcAlias[obj]; conv {
+			continue // a function of the pinned tree, method turned plain function or the reverse
+		}
 		var buf bytes.Buffer
 		if err := format.Node(&buf, c.Fset, fd.Body); err != nil {
 			continue
 		}
-		cands[obj] = &inlineCandidate{fd: fd, obj: obj, file: c.fileOf[fd], body: buf.String()}
+		cands[obj] = &inlineCandidate{fd: fd, obj: obj, sig: obj.Type().(*types.Signature), file: c.fileOf[fd], body: buf.String()}
+	}
+	// local closures the pinned tree does not have
+	for key, fd := range c.decls {
+		for _, cd := range localClosures(c, fd) {
+			if baselineClosures[key+"/"+cd.name] {
+				continue
+			}
+			sig, isSig := cd.obj.Type().(*types.Signature)
+			if !isSig || !onlyCalled(c, fd, cd.obj) {
+				continue
+			}
+			synth := &ast.FuncDecl{Name: ast.NewIdent(cd.name), Type: cd.lit.Type, Body: cd.lit.Body}
+			if !inlinable(c, synth, cd.obj) {
+				continue
+			}
+			var buf bytes.Buffer
+			if err := format.Node(&buf, c.Fset, cd.lit.Body); err != nil {
+				continue
+			}
+			cands[cd.obj] = &inlineCandidate{fd: synth, obj: cd.obj, sig: sig, file: c.fileOf[fd], body: buf.String(), def: cd.def, owner: fd, lit: cd.lit}
+		}
 	}
 	if len(cands) == 0 {
 		return nil, nil
@@ -68,7 +153,7 @@ func inlineNewHelpers(c *Ctx) (map[string][]byte, []string) {
 		if fd.Body == nil {
 			continue
 		}
-		if obj := c.declObj[fd]; obj != nil && cands[obj] != nil {
+		if obj := c.declObj[fd]; obj != nil && cands[types.Object(obj)] != nil {
 			continue // a new helper itself: its calls are dealt with once it has been written into a caller
 		}
 		_ = key
@@ -87,6 +172,9 @@ func inlineNewHelpers(c *Ctx) (map[string][]byte, []string) {
 			}
 			cand := cands[site.callee]
 			if !importsCover(c, cand, file) {
+				return true
+			}
+			if cand.lit != nil && !sameCaptures(c, cand, site.call) {
 				return true
 			}
 			counter++
@@ -111,6 +199,26 @@ func inlineNewHelpers(c *Ctx) (map[string][]byte, []string) {
 	for _, cand := range cands {
 		name := cand.fd.Name.Name
 		if !used[name] {
+			continue
+		}
+		if cand.lit != nil {
+			// a closure none of whose calls is left: its definition goes (an unused variable does not compile)
+			refs := 0
+			ast.Inspect(cand.owner.Body, func(n ast.Node) bool {
+				if id, ok := n.(*ast.Ident); ok && id.Name == name && id != cand.def.Lhs[0].(*ast.Ident) {
+					refs++
+				}
+				return true
+			})
+			if refs == 0 {
+				astutil.Apply(cand.owner.Body, func(cur *astutil.Cursor) bool {
+					if cur.Node() == ast.Node(cand.def) && cur.Index() >= 0 {
+						cur.Delete()
+						return false
+					}
+					return true
+				}, nil)
+			}
 			continue
 		}
 		refs := 0
@@ -155,7 +263,7 @@ func inlineNewHelpers(c *Ctx) (map[string][]byte, []string) {
 // the file is returned as it is.
 func stripPos(f *ast.File) *ast.File { return f }
 
-func inlinable(c *Ctx, fd *ast.FuncDecl, obj *types.Func) bool {
+func inlinable(c *Ctx, fd *ast.FuncDecl, obj types.Object) bool {
 	sig := obj.Type().(*types.Signature)
 	if sig.Variadic() || sig.TypeParams() != nil || sig.RecvTypeParams() != nil {
 		return false
@@ -179,14 +287,14 @@ func inlinable(c *Ctx, fd *ast.FuncDecl, obj *types.Func) bool {
 			}
 		case *ast.CallExpr:
 			if id, isId := ast.Unparen(t.Fun).(*ast.Ident); isId {
-				if c.Info.Uses[id] == types.Object(obj) {
+				if c.Info.Uses[id] == obj {
 					ok = false // recursive
 				}
 				if id.Name == "recover" {
 					ok = false
 				}
 			}
-			if sel, isSel := ast.Unparen(t.Fun).(*ast.SelectorExpr); isSel && c.Info.Uses[sel.Sel] == types.Object(obj) {
+			if sel, isSel := ast.Unparen(t.Fun).(*ast.SelectorExpr); isSel && c.Info.Uses[sel.Sel] == obj {
 				ok = false
 			}
 		case *ast.FuncLit:
@@ -198,13 +306,13 @@ func inlinable(c *Ctx, fd *ast.FuncDecl, obj *types.Func) bool {
 }
 
 type inlineSite struct {
-	callee *types.Func
+	callee types.Object
 	call   *ast.CallExpr
 	stmt   ast.Stmt
 	kind   string // "expr", "assign", "return", "ifcond", "ifinit"
 }
 
-func calleeOf(c *Ctx, call *ast.CallExpr, cands map[*types.Func]*inlineCandidate) *types.Func {
+func calleeOf(c *Ctx, call *ast.CallExpr, cands map[types.Object]*inlineCandidate) types.Object {
 	var id *ast.Ident
 	switch f := ast.Unparen(call.Fun).(type) {
 	case *ast.Ident:
@@ -215,15 +323,46 @@ func calleeOf(c *Ctx, call *ast.CallExpr, cands map[*types.Func]*inlineCandidate
 	if id == nil {
 		return nil
 	}
-	fn, ok := c.Info.Uses[id].(*types.Func)
-	if !ok || cands[fn] == nil {
+	fn := c.Info.Uses[id]
+	if fn == nil || cands[fn] == nil {
 		return nil
 	}
 	return fn
 }
 
-func findCallSite(c *Ctx, st ast.Stmt, cands map[*types.Func]*inlineCandidate) *inlineSite {
-	asCall := func(e ast.Expr) (*ast.CallExpr, *types.Func) {
+// sameCaptures: every name the closure's body takes from around it means the same thing where the call stands (no
+// declaration between the closure and the call hides it), so the body can stand there as it is.
+func sameCaptures(c *Ctx, cand *inlineCandidate, call *ast.CallExpr) bool {
+	inner := c.Types.Scope().Innermost(call.Pos())
+	if inner == nil {
+		return false
+	}
+	ok := true
+	ast.Inspect(cand.lit.Body, func(n ast.Node) bool {
+		id, isId := n.(*ast.Ident)
+		if !isId {
+			return true
+		}
+		o := c.Info.Uses[id]
+		if o == nil || o.Pkg() == nil || o.Parent() == c.Types.Scope() || o.Parent() == nil {
+			return true // universe, package level, fields and methods
+		}
+		if _, isPkg := o.(*types.PkgName); isPkg {
+			return true
+		}
+		if o.Pos() >= cand.lit.Pos() && o.Pos() <= cand.lit.End() {
+			return true // declared inside the literal
+		}
+		if _, at := inner.LookupParent(id.Name, call.Pos()); at != o {
+			ok = false
+		}
+		return true
+	})
+	return ok
+}
+
+func findCallSite(c *Ctx, st ast.Stmt, cands map[types.Object]*inlineCandidate) *inlineSite {
+	asCall := func(e ast.Expr) (*ast.CallExpr, types.Object) {
 		call, ok := ast.Unparen(e).(*ast.CallExpr)
 		if !ok {
 			return nil, nil
@@ -324,7 +463,7 @@ func parseExpr(src string) ast.Expr {
 
 // buildInline returns the statements to put in front of the call's statement and the statement that replaces it.
 func buildInline(c *Ctx, cand *inlineCandidate, site *inlineSite, n int) (pre []ast.Stmt, repl ast.Stmt, ok bool) {
-	sig := cand.obj.Type().(*types.Signature)
+	sig := cand.sig
 	pfx := fmt.Sprintf("_inl%d_", n)
 	var src strings.Builder
 	// argument temporaries (evaluated in the caller's scope, in order: receiver first)
